@@ -404,7 +404,7 @@ class KnownFinding:
 
     def region(self, inp, out):
         env = dict(inp=inp, out=out, P=self._hp or {}, And=core.sym_and, Or=core.sym_or,
-                   Not=core.sym_not, ite=core.ite, dual_range=dual_range)
+                   Not=core.sym_not, ite=core.ite, dual_range=dual_range, dual_range_ks=dual_range_ks)
         if isinstance(inp, dict):
             env.update({k: v for k, v in inp.items() if isinstance(k, str)})
         if self._hp:
@@ -418,6 +418,11 @@ def dual_range(v1, v2, kmax=64):
     v2 - v1 == 2**k and -2**(k-1) <= v1 < 0 (hence 2**(k-1) <= v2 < 2**k) for some k"""
     return core.sym_or(*[core.sym_and(v2 - v1 == (1 << k), v1 >= -(1 << (k - 1)), v1 < 0)
                          for k in range(1, kmax + 1)])
+
+
+def dual_range_ks(v1, v2, ks):
+    """dual_range restricted to the listed field widths k"""
+    return core.sym_or(*[core.sym_and(v2 - v1 == (1 << k), v1 >= -(1 << (k - 1)), v1 < 0) for k in ks])
 
 
 def load_known(path, prop):
